@@ -554,7 +554,12 @@ def gen_misc(repo):
     return "MiscGen.v", "\n".join(out)
 
 
-GENERATORS = [gen_solvers, gen_ode, gen_util, gen_interpolate, gen_misc]
+def gen_trace(repo):
+    import py2trace
+    return py2trace.gen_trace(repo)
+
+
+GENERATORS = [gen_solvers, gen_ode, gen_util, gen_interpolate, gen_misc, gen_trace]
 
 
 def regenerate_all(repo=None):
